@@ -36,7 +36,7 @@ RULE = ("programs of the core language, structured profile (with-blocks, start_t
         "types + eliot:remote_task and 2 message types so that repeated types, equal-typed siblings and equal-typed descendants are "
         "the norm; 1 program in 6 is widened (10-14, sometimes 20-26, extra children in one action, some with grand-children: two-digit level components); all logged through one "
         "MemoryLogger; per program: of_type for every action type present and one absent, LoggedMessage.of_type for every message "
-        "type, 6-14 assertHasAction / assertHasMessage expectations (matching subsets, perturbed value, missing key, wrong outcome, "
+        "type and always for the empty type (1 message in 10 is logged untyped), 6-14 assertHasAction / assertHasMessage expectations (matching subsets, perturbed value, missing key, wrong outcome, "
         "absent key expected as None / 0 / empty string / False, present key expected as None, the fields of a later entry of the same type); about 1 logged "
         "field value in 8 is None; non-trivial = finished log with depth >= 2 and (>= 2 tasks or a type with >= 2 "
         "entries); distinct by canonical hash of the program")
@@ -130,8 +130,21 @@ def none_values(rng, prog):
                 none_values(rng, s[k])
 
 
+def untyped_messages(rng, prog):
+    """About one message in ten is logged with the empty message type (what the untyped `Message.log(...)` /
+    `Message.new(...).write()` spellings produce); action messages have no message_type key at all."""
+    for s in prog:
+        if s.get("op") in ("log", "logTo") and rng.random() < 0.1:
+            s["ms"]["mtype"] = ""
+            s["ms"]["sers"] = None
+        for k in ("body", "handler"):
+            if k in s:
+                untyped_messages(rng, s[k])
+
+
 def gen_program(rng):
     case = sysgen.gen_case(rng, PROFILE)
+    untyped_messages(rng, case["prog"])
     repeat_types(case["prog"])
     none_values(rng, case["prog"])
     wide = rng.random() < 1 / 6
@@ -245,7 +258,8 @@ def observe(msgs):
         return {"a": body(x.startMessage)}
 
     atypes = sorted({m.get("action_type") for m in msgs if isinstance(m.get("action_type"), str)}) + ["app:absent"]
-    mtypes = sorted({m.get("message_type") for m in msgs if isinstance(m.get("message_type"), str)}) + ["app:absent"]
+    # the empty type is always queried: a dictionary without message_type is not a message of type ""
+    mtypes = sorted({m.get("message_type") for m in msgs if isinstance(m.get("message_type"), str)} | {""}) + ["app:absent"]
     of_type = {}
     for t in atypes:
         try:
